@@ -122,6 +122,7 @@ class World:
         self.current: dict[str, Any] = {}  # thread name -> tag of the message being handled
         self.vnow = 0.0
         self._due: dict[int, float] = {}
+        self.withheld: dict[int, str] = {}  # row id -> lock held by a worker that never acked
         self._seen_deliver: dict[int, str] = {}
         self.side = hooks.raw_connect(path, isolation_level=None, check_same_thread=False, timeout=30)
         self._side_lock = threading.RLock()
@@ -354,7 +355,9 @@ class World:
         return [dict(zip(cols, r)) for r in cur.fetchall()]
 
     def expose(self, row_id: int) -> None:
-        """Make exactly this row visible to poll_one (time warp + lock lapse)."""
+        """Make exactly this row visible to poll_one (time warp + lock lapse).  The other
+        rows are hidden behind a far-future lock only until `unhide()` (called right after
+        the poll): code that inspects lock state must see waiting rows as unlocked."""
         self.harness_write(
             [
                 (
@@ -365,6 +368,20 @@ class World:
                 )
             ]
         )
+        self.withheld.pop(row_id, None)
+
+    def unhide(self) -> None:
+        """Undo the hiding locks: waiting rows are unlocked again; rows whose ack was
+        withheld keep the lock their worker took (until `lapse`)."""
+        stmts = [("UPDATE queue_messages SET locked_until = NULL WHERE locked_until = ?", (FAR,))]
+        for rid, lock in self.withheld.items():
+            stmts.append(("UPDATE queue_messages SET locked_until = ? WHERE id = ?", (lock, rid)))
+        self.harness_write(stmts)
+
+    def lapse(self, row_id: int) -> None:
+        """The visibility lock of a withheld (never acknowledged) message runs out."""
+        if self.withheld.pop(row_id, None) is not None:
+            self.harness_write([("UPDATE queue_messages SET locked_until = NULL WHERE id = ?", (row_id,))])
 
     def deliver(self, row_id: int, ack: bool = True, tag: Any = None) -> dict:
         """Deliver one chosen row through the real poll_one -> _handle_message -> ack path."""
@@ -376,6 +393,7 @@ class World:
         rec = {"row": row_id, "ack": ack, "step": len(self.handled)}
         q = self.queue
         msg = q.poll_one()
+        self.unhide()
         if msg is None:
             rec["polled"] = None
             self.handled.append(rec)
@@ -389,6 +407,10 @@ class World:
                 self.processor._handle_message(msg)
                 if ack:
                     q.ack(msg)
+                else:
+                    r = self._exec_side("SELECT locked_until FROM queue_messages WHERE id = ?", (row_id,)).fetchone()
+                    if r is not None and r[0]:
+                        self.withheld[row_id] = r[0]
                 rec["error"] = None
             except Exception as e:  # mirrors QueueProcessor.process_and_ack
                 rec["error"] = f"{type(e).__name__}: {e}"
